@@ -40,7 +40,7 @@ def strategy_(draw, tier):
             "space": draw(st.sampled_from(["feature", "sample"])),
             "alpha": draw(st.sampled_from([1e-6, 1e-2, 1.0])),
             "mixing": draw(st.sampled_from([0.0, 0.1, 0.3, 0.5, 0.7, 0.9, 1.0])),
-            "grid": grid, "cseed": draw(gen.SEEDS), "klr_extra": draw(st.integers(0, 1))}
+            "grid": grid, "cseed": draw(gen.SEEDS), "klr_extra": draw(st.integers(0, 1)), "prior_use": draw(st.booleans())}
 
 
 def strategy(tier):
@@ -70,6 +70,12 @@ def check(case, ctx):
         ctx.skip("grey-zone eigenvalue of X^T X")
         return
     reg = Ridge(alpha=a, fit_intercept=False, tol=1e-12)
+    if case.get("prior_use"):
+        # the same (unfitted) regressor object was passed to another PCovR on other data before: nothing may carry over
+        with ctx.lib("prior-fit"):
+            PCovR(mixing=0.5, n_components=1, space=space, regressor=reg).fit(X[::-1] * 1.0, np.roll(Y, 1, axis=0)[:, ::-1] * -1.0)
+        ctx.true("unfitted-regressor-stays-unfitted", not hasattr(reg, "coef_"), "the caller's unfitted regressor was fitted in place")
+        ctx.cls("prior_use")
     Yhat = X @ np.linalg.solve(X.T @ X + a * np.eye(m), X.T @ Y)
     nX2 = float((X ** 2).sum())
 
